@@ -89,6 +89,26 @@ CHECKS.update({
         design='C14'),
 })
 
+CHECKS.update({
+    'C01': dict(
+        text='kinematics.forward (with scan.tree / scan.link_types) is symbolically executed on systems loaded by the real mjcf.loads from generator forests '
+             '(1-6 links, every hinge/slide stack word of length 1-3, non-orthogonal axes, offsets, rotated bodies, several roots) and proved equal to MuJoCo\'s '
+             'kinematics semantics (term spec validated against real mj_forward / mj_objectVelocity every run) for ALL root positions, slide coordinates and '
+             'velocities; plus a plumbing lemma: scan.tree / scan.link_types route symbolic payloads correctly on ALL forests / type strings up to a bound.',
+        note='Tier B: hinge half-angle sin/cos at exact rational points (|q|<=2) and exact rational unit root quaternions; kinematic parameters are the exact '
+             'rationals the loaded System rounds (validated each run). Velocities of stacked/offset joints: KNOWN-FINDING (upstream TODO). '
+             'Bounds: 14 (quick) / 40 (thorough) models; plumbing forests <=5/6 links, type strings <=4/5 links.',
+        technique='symbolic execution of jaxprs to z3 real terms; QF_NRA equivalence with a reference spec; exhaustive structural plumbing lemma', design='C01'),
+    'C08': dict(
+        text='forward -> world_to_joint -> inverse is symbolically executed with hinge angles SYMBOLIC (t = tan(q/4) rational parametrisation on the chart |q|<=1.2), '
+             'slides / root positions / velocities symbolic; the atan2 / acos applications of the Euler extraction are uninterpreted with sound identification axioms '
+             'instantiated at the input angles, square roots folded by solver lemmas; the solver proves q\' == q and qd\' == qd (claimed class).',
+        note='Bounds: orthogonal stacks h, s, hh, ss, sh (both handedness for hh) with and without a free root (quick); hhh, sss, ssh extended in thorough. '
+             'Velocity round trip of prismatic/stacked joints: KNOWN-FINDING. Replay refines an abstract witness over a grid of the chart.',
+        technique='symbolic execution of jaxprs; rational parametrisation + denominator clearing; uninterpreted transcendental applications with identification axioms; nlsat',
+        design='C08'),
+})
+
 NOT_APPLICABLE = {
     'C16': 'whole-program finiteness of 11 environments over 200-1000-step histories with contact switching and float overflow: '
            'outside what a bounded real-arithmetic encoding can decide (DESIGN.md section 3)',
